@@ -49,7 +49,7 @@ QInit(group, mode, filtered) ==
       conn   |-> [s \in Sides |-> ""],
       sent   |-> <<>>,         \* <<side, space>> -> set of packet numbers logged as sent
       lastPn |-> <<>>,         \* <<side, space>> -> largest packet number logged as sent
-      sstate |-> <<>>,         \* <<side, sid, stream_side>> -> last state logged
+      sstate |-> <<>>,         \* <<side, sid, stream_type, stream_side>> -> last state logged
       nev    |-> 0,
       ok |-> TRUE, why |-> "", at |-> 0 ]
 
@@ -80,7 +80,7 @@ Specific(st, e) ==
             IF ~st.filtered /\ \E i \in 1..Len(e.pns) : e.pns[i] \notin Get(st.sent, <<e.side, e.space>>, {})
             THEN Fail(st, "packets_acked refers to a packet that was never logged as sent (C20)") ELSE st
       [] e.name = "stream_state_updated" ->
-            LET key == <<e.side, e.sid, e.sside>>
+            LET key == <<e.side, e.sid, e.stype, e.sside>>   \* the code logs the stream INDEX as stream_id: the type is part of the identity
                 prev == Get(st.sstate, key, "")
                 nxt == IF e.sside = "sending" THEN SendNext(prev) ELSE RecvNext(prev)
             IN IF e.new \notin nxt THEN Fail(st, "logged stream states do not follow the stream state machine (C20)")
